@@ -119,7 +119,10 @@ func runFile(c *fw.Ctx, f filedrv.File) {
 	}
 	// bit flips
 	data := make([]byte, len(f.Data))
-	for _, s := range sites(f) {
+	for si, s := range sites(f) {
+		if f.Big && s.kind == "payload" && si%23 != 0 {
+			continue
+		}
 		for bit := 0; bit < 8; bit++ {
 			copy(data, f.Data)
 			data[s.off] ^= 1 << uint(bit)
